@@ -79,4 +79,53 @@ func init() {
 	}
 }
 
+func cfgParams(expiry, refresh, bound, max, deferred, icap int) map[string]int {
+	return map[string]int{"expiry": expiry, "refresh": refresh, "bound": bound, "max": max, "deferred": deferred, "icap": icap, "canary": 0}
+}
+
+func with(m map[string]int, kv ...interface{}) map[string]int {
+	r := map[string]int{}
+	for k, v := range m {
+		r[k] = v
+	}
+	for i := 0; i+1 < len(kv); i += 2 {
+		r[kv[i].(string)] = kv[i+1].(int)
+	}
+	return r
+}
+
+func init() {
+	registry["C12"] = func(tier string) []*Job {
+		var js []*Job
+		expNames := []string{"none", "creating", "writing", "accessing", "custom"}
+		for _, exp := range []int{1, 2, 3, 4} {
+			for op := 0; op <= 4; op++ {
+				if tier == "quick" && op == 4 && exp != 3 {
+					continue
+				}
+				bounds := []int{0}
+				if tier == "thorough" {
+					bounds = []int{0, 1, 2}
+				}
+				for _, bd := range bounds {
+					j := mk(sprintf("c12.expiry.%s.op%d.b%d", expNames[exp], op, bd), rootPkg, "ZZ_C12_Expiry",
+						with(cfgParams(exp, 0, bd, 10, 1, 0), "op", op), nil)
+					js = append(js, j)
+				}
+			}
+		}
+		for _, ref := range []int{1, 2, 3} {
+			for op := 0; op <= 2; op++ {
+				j := mk(sprintf("c12.refresh.r%d.op%d", ref, op), rootPkg, "ZZ_C12_Refresh",
+					with(cfgParams(0, ref, 0, 10, 1, 0), "op", op), nil)
+				js = append(js, j)
+			}
+		}
+		j := mk("c12.canary", rootPkg, "ZZ_C12_Expiry", with(cfgParams(2, 0, 0, 10, 1, 0), "op", 0, "canary", 1), nil)
+		j.Canary = "c12.canary"
+		js = append(js, j)
+		return js
+	}
+}
+
 func sprintf(f string, a ...interface{}) string { return fmt.Sprintf(f, a...) }
